@@ -1,7 +1,7 @@
 """C01: composition-level contracts shared with C02/C06 (every failing core result is reported, none invented)."""
 from contracts.C06_run_checks import ArrayCollect, ArrayCollectPrefix, ArrayRunChecks, ColumnRunChecks, ContainerRunChecks
-from contracts.C19_check_options import PostprocessField, PreprocessField, RunCheck
+from contracts.C19_check_options import ApplyField, PostprocessField, PreprocessField, RunCheck
 from contracts.C03_container_validate import ContainerValidate  # every parser and the whole core-check pipeline run on every validate
 from contracts.C04_field_validate import ArrayValidate
 
-CONTRACTS = [ArrayCollect, ArrayCollectPrefix, ArrayRunChecks, ColumnRunChecks, ContainerRunChecks, PreprocessField, PostprocessField, RunCheck, ContainerValidate, ArrayValidate]
+CONTRACTS = [ArrayCollect, ArrayCollectPrefix, ArrayRunChecks, ColumnRunChecks, ContainerRunChecks, PreprocessField, ApplyField, PostprocessField, RunCheck, ContainerValidate, ArrayValidate]
